@@ -5,6 +5,7 @@ import SkaModel.Impl.Skalo
 import SkaModel.Impl.SkaloDerep
 import SkaModel.Impl.SkaloPipe
 import SkaModel.Impl.SkaloRef
+import SkaModel.Impl.SkaloUnion
 import SkaModel.DriverBase
 import SkaModel.DriverHist
 
@@ -55,7 +56,7 @@ def runLo (c : Case) : String × String :=
     let (mNum, mDen) := match (c.get "m").splitOn "/" with
       | [x, y] => (x.toNat?.getD 0, y.toNat?.getD 1)
       | _ => (0, 1)
-    let (g, col) := buildGraph W a
+    let (g, col) := buildGraphU W a
     match identifyGoodKmers W kg g col with
     | none => ("panic", "-")
     | some (starts, ends) =>
@@ -125,9 +126,8 @@ def runLo (c : Case) : String × String :=
     let a := arrOfTable W k (c.flag "rc") (c.get "table")
     let parts := (a.kmers.zip a.variants).map (fun kv => rowGraph W k kv.1 kv.2)
     let edges := sortStrings ((parts.flatMap (·.1)).map (fun e => s!"{e.1}>{e.2}"))
-    -- `entry(..).or_insert_with`: the first sample set recorded for a k-mer wins
-    let colours := (parts.flatMap (·.2)).foldl (fun (acc : List (Nat × List Nat)) kv =>
-      if acc.any (·.1 == kv.1) then acc else acc ++ [kv]) []
+    -- `entry(..).and_modify(union_with).or_insert_with`: the sample sets recorded for a k-mer are merged
+    let colours := (parts.flatMap (·.2)).foldl (fun (acc : List (Nat × List Nat)) kv => addColourU acc kv.1 kv.2) []
     let cs := sortStrings (colours.map (fun kv => s!"{kv.1}:{String.intercalate "+" (kv.2.map toString)}"))
     (s!"k={k} n={a.names.length} edges={joinStr edges} colours={joinStr cs}", "-")
   | op => (s!"unknown-op:{op}", "-")
